@@ -486,8 +486,14 @@ func faultWithBlockedOps(id string, seed uint64) runner.Result {
 		}
 		return nil
 	})
+	how := payload.Pick(r, []string{"server-side reset", "server-side close", "Conn.Close", "the call's context is cancelled (soft cancel finds the stream busy and the manager closes the transport)"})
+	sctx, scancel := context.WithCancel(context.Background())
+	defer scancel()
+	if strings.HasPrefix(how, "the call's context") {
+		cfg.Client.SoftCancel, cfg.Server.SoftCancel = true, true
+	}
 	rg := rig.New(rig.Config{Net: cfg.Net, Client: cfg.Client, Server: cfg.Server}, handler)
-	st, err := rg.Conn.NewStream(context.Background(), "/x", payload.Enc{})
+	st, err := rg.Conn.NewStream(sctx, "/x", payload.Enc{})
 	if err != nil {
 		rg.Teardown()
 		return runner.Inconcl(id, "NewStream failed")
@@ -510,15 +516,16 @@ func faultWithBlockedOps(id string, seed uint64) runner.Result {
 		b = rig.Go("closesend", func() (interface{}, error) { return nil, st.CloseSend() })
 	}
 	census.Quiesce(rig.Watchdog)
-	how := payload.Pick(r, []string{"server-side reset", "server-side close", "Conn.Close"})
 	var cl *rig.Op
 	switch how {
 	case "server-side reset":
 		rg.Pair.B.Reset()
 	case "server-side close":
 		rg.Pair.B.Close()
-	default:
+	case "Conn.Close":
 		cl = rig.Go("conn.Close", func() (interface{}, error) { return nil, rg.Conn.Close() })
+	default:
+		scancel()
 	}
 	_, snap := census.Quiesce(rig.Watchdog)
 	desc := fmt.Sprintf("%s | a send stuck in the transport (write stalled), %s queued behind it, then %s", cfg.Desc, term, how)
@@ -538,6 +545,36 @@ func faultWithBlockedOps(id string, seed uint64) runner.Result {
 		fails = append(fails, census.Dump(census.InDRPC(snap)))
 	} else if !rig.IsClosed(rg.Conn.Closed()) {
 		fails = append(fails, "after the fault the client connection does not report closed")
+	} else {
+		// every later call fails (and the process survives it)
+		for _, name := range []string{"Invoke", "NewStream"} {
+			name := name
+			later := rig.Go("later-"+name, func() (res interface{}, err error) {
+				defer func() {
+					if p := recover(); p != nil {
+						err = nil
+						res = fmt.Sprint("panic: ", p)
+					}
+				}()
+				in := payload.Make(9, 0, 0, 0, 5)
+				var out []byte
+				if name == "Invoke" {
+					return nil, rg.Conn.Invoke(context.Background(), "/x", payload.Enc{}, &in, &out)
+				}
+				s2, err := rg.Conn.NewStream(context.Background(), "/x", payload.Enc{})
+				if err == nil && s2 != nil {
+					go s2.Close()
+				}
+				return nil, err
+			})
+			if !later.Wait() {
+				fails = append(fails, "a later "+name+" blocks")
+			} else if later.Val != nil {
+				fails = append(fails, fmt.Sprintf("a later %s on the closed connection: %v", name, later.Val))
+			} else if later.Err == nil {
+				fails = append(fails, "a later "+name+" on the closed connection succeeded")
+			}
+		}
 	}
 	rg.StopServe()
 	cl2 := rig.Go("conn.Close#2", func() (interface{}, error) { return nil, rg.Conn.Close() })
